@@ -410,7 +410,11 @@ def steps_strategy(version):
     enc = st.tuples(st.just('encrypt'), st.sampled_from([1024, 1024, 2048]),
                     st.binary(min_size=1, max_size=64),
                     st.sampled_from(['-', '', 'a' * 20, 'srv',
-                                     '0123456789abcdef0123']),
+                                     '0123456789abcdef0123',
+                                     # the id is hashed as UTF-8
+                                     's\u00e9rveur-\u00fcn\u00ef',
+                                     '\u670d\u52a1\u5668-01',
+                                     'id\U0001f600']),
                     # the key in any DER form the client's parser accepts
                     st.sampled_from(['spki', 'spki', 'pkcs1',
                                      'spki_no_null']))
@@ -483,7 +487,8 @@ def t_fixed(ctx, versions):
         scripts = [
             [],
             [('encrypt', 1024, tokn, '-')],
-            [('encrypt', 1024, tokn, 'a' * 20), ('compress', 256)],
+            [('encrypt', 1024, tokn, 's\u00e9rv-\u670d\U0001f600'),
+             ('compress', 256)],
             [('compress', 0), ('encrypt', 2048, tokn * 16, '', 'pkcs1')],
             [('plugin', 0, 'a:b', b'', True),
              ('encrypt', 1024, tokn, 'srv', 'spki_no_null'),
